@@ -9,7 +9,7 @@ PROPERTY = "C04"
 LEVEL = "other"
 LEVEL_TEXT = "lexical half proved for all strings (regular-language and transducer obligations generated from the real needs_quotes / emit_value / TOKEN_PATTERNS / identifier predicates); the reader's handling of a single value token in each position is a bounded exhaustive stand-in"
 LEVEL_NOTE = "trusted: CPython re semantics as encoded (cross-checked on all short strings), leftmost-greedy = longest match for the token patterns (A-greedy), output language of str(int)/repr(float) (A-float-repr), unicodedata NFC tables, control skeleton of tokenize checked syntactically + differential B"
-TECHNIQUE = "language inclusion / transducer identity over automata extracted from the real regexes and replace chains; bounded exhaustive write-then-read as stand-in for the parser"
+TECHNIQUE = "language inclusion / transducer identity over automata extracted from the real regexes and replace chains (writing side, lexer) + pre/postconditions on the real parser functions over concrete token spines with symbolic values (reading side; z3); bounded exhaustive write-then-read for the remaining parser paths"
 EXPLANATION = "C04: R obligations decide, for every string, that the text the emitter writes for a scalar re-lexes to the token that carries it back; B obligation runs the real emit+parse on all short strings."
 ASSUMPTIONS = [
     "A-greedy: CPython's leftmost-greedy match end equals the longest match for every TOKEN_PATTERNS entry (cross-checked against re on all strings <= 3 over 22 characters)",
